@@ -161,6 +161,9 @@ def to_ast(f):
                 "vars": varlist(f.reduced_vars), "terms": [to_ast(t) for t in f.terms]}
     if isinstance(f, Delta):
         return {"c": "Delta", "terms": [[n, to_ast(p), to_ast(ld)] for n, (p, ld) in f.terms]}
+    if type(f).__name__ == "Integrate":
+        return {"c": "Integ", "measure": to_ast(f.log_measure), "integrand": to_ast(f.integrand),
+                "vars": varlist(f.reduced_vars)}
     if type(f).__name__ == "Gaussian":
         ins = [[k, dom_spec(d)] for k, d in f.inputs.items()]
         return {"c": "Gauss", "ins": ins, "rank": int(f.prec_sqrt.shape[-1]),
